@@ -23,5 +23,6 @@ let () = att_main
     | Op (OpIn (_, [op; lo; hi], n)) when int_of_n op = 10 && int_of_n n >= 23 ->
         (match parse_out o r with
          | OBytes resp -> verdict (check_read c (n_of_int (int_of_n lo + 256 * int_of_n hi)) resp)
+         | OFault -> if String.trim r = "SKIPPED" then None else Some "fault"
          | _ -> Some "shape")
     | _ -> None)
